@@ -1,7 +1,7 @@
 (* Executable model of the pagination logic of OpenFGA (C14).  Definitions only; the proofs are
    in Store/PagingProofs.v.
 
-   Modelled code (as it exists in /repo, defects included):
+   Modelled code (as it exists in /repo):
      pkg/server/commands/read.go, read_changes.go, list_stores.go, read_authzmodels.go
         (token decode -> storage call -> token encode, type-bound ReadChanges tokens,
          the tuple_key restriction of Read),
@@ -140,9 +140,9 @@ Section Sort.
 End Sort.
 
 (* ------------------------------------------------------------------------------------------ *)
-(* memory backend, ReadPage (memory.go read): offset tokens, as coded.
-   from > len(matches): the slice is NOT cut (restart from the first page);
-   from < 0: matches[from:] panics. *)
+(* memory backend, ReadPage (memory.go read): offset tokens, as coded since fix 3cab6a7:
+   from < 0: storage.ErrInvalidContinuationToken (-> ErrInvalidContinuationToken in ReadQuery);
+   from = min(from, len(matches)): an offset beyond the end is an empty last page. *)
 
 Definition parse_from (from : bytes) : option Z :=
   match from with [] => Some 0%Z | _ => atoi from end.
@@ -151,34 +151,13 @@ Definition page_offset {A} (l : list A) (size : N) (from : bytes) : outcome A :=
   match parse_from from with
   | None => Rejected EInternal                 (* strconv error through HandleError *)
   | Some z =>
-    let len := Z.of_nat (length l) in
-    if (z <=? len)%Z && (z <? 0)%Z then Panic
+    if (z <? 0)%Z then Rejected EInvalidToken
     else
-      let m := if (z <=? len)%Z then skipn (Z.to_nat z) l else l in
+      let f := Z.min z (Z.of_nat (length l)) in
+      let m := skipn (Z.to_nat f) l in
       if negb (size =? 0) && (N.to_nat size <? length m)%nat
-      then Page (firstn (N.to_nat size) m) (itoa (wrap64 (z + Z.of_N size)))
+      then Page (firstn (N.to_nat size) m) (itoa (wrap64 (f + Z.of_N size)))
       else Page m []
-  end.
-
-(* how the memory ReadPage reads an offset token relative to a list of length len *)
-Inductive offset_class := OcInRange | OcBeyondEnd | OcNegative | OcUnparsable.
-Definition offset_token_class (len : nat) (from : bytes) : offset_class :=
-  match parse_from from with
-  | None => OcUnparsable
-  | Some z => if (z <? 0)%Z then OcNegative
-              else if (z <=? Z.of_nat len)%Z then OcInRange else OcBeyondEnd
-  end.
-Definition offset_in_range (len : nat) (from : bytes) : bool :=
-  match offset_token_class len from with OcInRange => true | _ => false end.
-
-(* triggers of finding F5 (computed, not pattern-matched): which offset tokens the memory
-   ReadPage misreads *)
-Inductive finding := FNegativeOffsetPanics | FOffsetBeyondEndRestarts.
-Definition offset_finding (len : nat) (from : bytes) : option finding :=
-  match offset_token_class len from with
-  | OcNegative => Some FNegativeOffsetPanics
-  | OcBeyondEnd => if (0 <? len)%nat then Some FOffsetBeyondEndRestarts else None
-  | _ => None
   end.
 
 (* memory backend, ListStores / ReadAuthorizationModels: sorted by id, offset clamped to [0,len] *)
@@ -406,16 +385,6 @@ Definition models_mem {A} (rows : list (bytes * A)) (ps : Z) (tok : bytes) : out
   raw_cmd (page_clamp desc rows) ps tok.
 Definition models_sql {A} (rows : list (bytes * A)) (ps : Z) (tok : bytes) : outcome A :=
   raw_cmd (page_keyset desc rows) ps tok.
-
-(* the F5 trigger of a Read request on the memory backend, from the decoded command-level token *)
-Definition read_mem_finding (len : nat) (tok : bytes) : option finding :=
-  match tok with
-  | [] => None
-  | _ => match deserialize tok with
-         | Some (u, _) => offset_finding len u
-         | None => None
-         end
-  end.
 
 (* ------------------------------------------------------------------------------------------ *)
 (* inner-iteration faults (sqlite readers).  The statement yields [stmt]; stepping onto the row
